@@ -158,3 +158,62 @@ func vh_C09_batch_small_order_gate() {
 		vAssert(r.valid[i] == vsVerifyPredicate(r.es[i].pk, r.es[i].msg, r.es[i].sig, 0, "", r.zip), "entry verdict == documented predicate (small-order gate on this entry's key and R)")
 	}
 }
+
+// C17: a batch of 4 or more entries that are all individually valid is decided by the batch equation itself,
+// chunk by chunk: the per-signature fallback (the only caller of verifyWithOptionsNoPanic when the batch length
+// leaves no remainder) is unreachable.  n = 4, 5: one chunk; n = 68: two chunks (first one replicated), which is
+// where per-chunk state left behind by the in-place multi-scalar multiplication would matter.
+var vFallbackCalls int
+
+func vc_countingNoPanic(publicKey PublicKey, message, sig []byte, opts *Options) (bool, error) {
+	vFallbackCalls++
+	vAssert(false, "per-signature fallback reached for a batch whose entries are all valid")
+	return vUFBool("fallbackVerdict", publicKey, sig), nil
+}
+
+func vh_C17_valid_batch_no_fallback() {
+	n := 4
+	vReplicate = 0
+	switch vCase(0, 2) {
+	case 1:
+		n = 5
+	case 2:
+		n = 68
+		vReplicate = 64
+	}
+	vCutBatch()
+	vReplace(verifyWithOptionsNoPanic, vc_countingNoPanic)
+	es := vBatchEntries(n, -1, 0, 0)
+	zip := vBool("zip215")
+	// all entries valid under the options used
+	for i := range es {
+		vAssume(vsVerifyPredicate(es[i].pk, es[i].msg, es[i].sig, 0, "", zip))
+		vAssume(vUFBool("okN", es[i].sig[:32]) == vsDecOK(es[i].sig[:32]))
+	}
+	// A1 for every chunk: with all entries valid the expected batch equation holds
+	pks := make([]PublicKey, n)
+	msgs := make([][]byte, n)
+	sigs := make([][]byte, n)
+	for i := range es {
+		pks[i], msgs[i], sigs[i] = es[i].pk, es[i].msg, es[i].sig
+	}
+	// (the assumption has to precede the call: the randomiser bytes of read k are named in advance)
+	off := 0
+	for k := 0; off+4 <= n; k++ {
+		c := n - off
+		if c > 64 {
+			c = 64
+		}
+		vAssume(vsBatchEquation(es[off:off+c], vReaderBytesOfCall(k, 16*c), 0, ""))
+		off += c
+	}
+	ok, valid, err := VerifyBatch(vReader("entropy"), pks, msgs, sigs, &Options{ZIP215Verify: zip})
+	failed := false
+	for k := 0; k < vReaderCalls(); k++ {
+		failed = failed || vReaderFailed(k)
+	}
+	vReach("VerifyBatch returned")
+	if !failed {
+		vAssert(vIsNilErr(err) && ok && len(valid) == n, "an all-valid batch is accepted")
+	}
+}
